@@ -22,6 +22,28 @@ GENERIC_INSTANCES = {
 }
 
 
+USER_ASSUMPTION = {"apply": "A_E", "residual": "A_R", "map_operations": "A_F2", "map_arrow": "A_F3",
+                   "lax_map_operation": "A_L", "lax_map_object": "A_L"}
+
+
+def user_origin(x):
+    """Name of the user contract a polynomial/term depends on (through a ('user', kind, ...) leaf)."""
+    if isinstance(x, Poly):
+        for a in x.atoms():
+            r = user_origin(a)
+            if r:
+                return r
+        return None
+    if isinstance(x, tuple):
+        if len(x) >= 2 and x[0] == "user" and isinstance(x[1], str):
+            return USER_ASSUMPTION.get(x[1], "A_U")
+        for y in x:
+            r = user_origin(y)
+            if r:
+                return r
+    return None
+
+
 class Frame:
     _next = [0]
 
@@ -96,8 +118,7 @@ class Interp:
 
     def panic_path(self, st, fr, node, kind, what):
         """A path reaches a panic: the obligation is that the path is infeasible."""
-        goal_txt = "unreachable: " + "; ".join(st.path[-4:])
-        if st.infeasible():
+        if st.infeasible() or (self.saturate_empty(st) and st.infeasible()):
             self.oblige(kind, fr, node, what, self.path_goal(st), True, "infeasible-path")
             return
         # term disequalities assumed on this path: try to refute them
@@ -121,6 +142,20 @@ class Interp:
                 self.oblige(kind, fr, node, what, self.path_goal(st), True, "documented: " + why, status="requires")
                 return
         self.oblige(kind, fr, node, what, self.path_goal(st), False, "", detail=self.describe(st))
+
+    def saturate_empty(self, st):
+        """sum(x) = 0 for every array x of provably zero length that the facts mention."""
+        added = False
+        atoms = set()
+        for k, p in st.lin.facts:
+            atoms |= p.atoms()
+        for a in atoms:
+            if isinstance(a, tuple) and a and a[0] == "sum":
+                t = a[1]
+                if st.eq(t_len(t), 0):
+                    if st.lin.add("eq", Poly.atom(a)):
+                        added = True
+        return added
 
     def path_goal(self, st):
         # the normalised reason the path is (or should be) infeasible: last decisions
@@ -157,7 +192,16 @@ class Interp:
 
     def pre_eq(self, st, fr, node, what, a, b, txt=None):
         a, b = as_poly(a), as_poly(b)
-        ok = st.eq(a, b)
+        ok = st.eq(a, b) or (self.saturate_empty(st) and st.eq(a, b))
+        if not ok:
+            # a dimension of a value returned by user-supplied code: the documented contract
+            u = user_origin(a - b)
+            if u:
+                self.assumptions[u] = self.assumptions.get(u, 0) + 1
+                self.oblige("PRE", fr, node, what, txt or f"{show_poly(a)} == {show_poly(b)}", True,
+                            "assumption:" + u, status="assumed")
+                st.add_eq(a - b)
+                return True
         self.require(st, fr, node, "PRE", what, txt or f"{show_poly(a)} == {show_poly(b)}", ok)
         if not ok:
             st.add_eq(a - b)
@@ -1015,6 +1059,9 @@ class Interp:
                 if f"{trs}<&{r}" not in p and f"{trs}<{r}" not in p and not (r == v0.ty and f"{trs}<" not in p):
                     continue
             cands.append(f)
+        if len(cands) > 1 and callee.get("self_ty") is not None:
+            want_ref = self.facts.tystr(callee["self_ty"]).startswith("&")
+            cands = [f for f in cands if f.get("impl_self", "").startswith("&") == want_ref]
         if len(cands) == 1:
             return cands[0]
         return None
